@@ -1,4 +1,5 @@
 import FV.Proofs.Stog
+import FV.Proofs.StogInst
 /-
   C06 — Single-trunk orthogon (STOG) recognition is sound and complete.
   Property theorems only (helper lemmas live in `FV/Proofs/Stog.lean`).  The model is `FV/Model/Stog.lean`
@@ -248,5 +249,166 @@ example : WF (1/8 : ℚ) [⟨1, 3, 2, 2, "_", false, false, .nopoly⟩, ⟨2, 1,
   intro r hr; simp at hr; rcases hr with rfl | rfl <;> norm_num
 example : Abuts (1/8 : ℚ) .north ⟨2, 1, 4, 2, "_", false, false, .nopoly⟩ ⟨1, 3, 2, 2, "_", false, false, .nopoly⟩ := by
   simp only [Abuts, xmin, xmax, ymin, ymax, two]; norm_num
+
+/-! ## `Module.create_stog`, `Module.has_stog` and the call site in `Netlist` loading
+
+The netlist model (`FV/Model/Netlist.lean`, `FV/Model/NetlistStog.lean`) keeps the number tags of every rectangle; its STOG
+step `stogC06` is this file's `createStog` on the plain rectangles (`stogC06_toRect`).  `Mod.createStog` is
+`Module.create_stog()`, `hasStog` is `Module.has_stog`, and `finish` (inside `parseNetlist`) runs the step on every
+module that has rectangles and then demands a STOG of every flippable module. -/
+
+section netlist
+open FV.NL
+
+theorem hasStog_of_toRect {m : NL.Mod α} {b : Bool} {ε εA : α} {rs0 : List (NRect α)}
+    (h : createStog ε εA (rs0.map NRect.toRect) = some (b, m.rects.map NRect.toRect)) : hasStog m = b := by
+  obtain ⟨htrue, hfalse⟩ := createStog_roles ε εA _ b _ h
+  have hlen := createStog_length ε εA _ b _ h
+  cases hb : b with
+  | true =>
+    obtain ⟨t, rest, hout, ht, _⟩ := htrue hb
+    cases hr : m.rects with
+    | nil => rw [hr] at hout; cases hout
+    | cons r rs =>
+      rw [hr] at hout
+      simp only [List.map_cons, List.cons.injEq] at hout
+      have : r.loc = .trunk := by rw [← ht, ← hout.1]; rfl
+      simp [hasStog, hr, this]
+  | false =>
+    cases hr : m.rects with
+    | nil => simp [hasStog, hr]
+    | cons r rs =>
+      have := hfalse hb r.toRect (by rw [hr]; simp)
+      have hl : r.loc = .nopoly := this
+      simp [hasStog, hr, hl]
+
+/-- **`Module.create_stog()` and `Module.has_stog` agree**: after the call `has_stog` is the value it returned, and the
+    module's list is what `create_stog` leaves behind for it (same rectangles, reordered, with their roles). -/
+theorem module_createStog (ε εA : α) (m m' : NL.Mod α) (b : Bool) (h : Mod.createStog ε εA m = some (b, m')) :
+    hasStog m' = b ∧ createStog ε εA (m.rects.map NRect.toRect) = some (b, m'.rects.map NRect.toRect) ∧
+    (m'.rects.map fun r => geom r.toRect).Perm (m.rects.map fun r => geom r.toRect) ∧
+    m'.name = m.name ∧ m'.areaRegions = m.areaRegions ∧ m'.center = m.center := by
+  unfold Mod.createStog at h
+  cases hc : createStog ε εA (m.rects.map NRect.toRect) with
+  | none => rw [hc] at h; cases h
+  | some p =>
+    obtain ⟨b', out⟩ := p
+    rw [hc] at h
+    simp only [Option.some.injEq, Prod.mk.injEq] at h
+    obtain ⟨rfl, rfl⟩ := h
+    have hne : m.rects ≠ [] := by
+      intro hn; rw [hn] at hc; simp [createStog] at hc
+    obtain ⟨flag, hflag⟩ := stogC06_toRect ε εA m.rects hne
+    rw [hc] at hflag
+    simp only [Option.some.injEq, Prod.mk.injEq] at hflag
+    obtain ⟨rfl, rfl⟩ := hflag
+    have hperm := createStog_perm ε εA _ _ _ hc
+    rw [List.map_map, List.map_map] at hperm
+    exact ⟨hasStog_of_toRect (m := { m with rects := stogC06 ε εA m.rects }) hc, rfl, hperm, rfl, rfl, rfl⟩
+
+/-- `Module.create_stog()` fails (the assertion of `create_stog`) exactly on a module without rectangles — which is why
+    `Netlist` only calls it when `num_rectangles > 0`. -/
+theorem module_createStog_isSome (ε εA : α) (m : NL.Mod α) : (Mod.createStog ε εA m).isSome = true ↔ m.rects ≠ [] := by
+  unfold Mod.createStog
+  have := createStog_isSome_iff ε εA (m.rects.map NRect.toRect)
+  cases hc : createStog ε εA (m.rects.map NRect.toRect) with
+  | none => rw [hc] at this; simpa using this
+  | some p => rw [hc] at this; simpa using this
+
+/-- **what loading does to the rectangles of each module** (`Netlist._create_rectangles`, the loop `if m.num_rectangles > 0:
+    m.create_stog()`): a module without rectangles is left alone and has no STOG; for every other module the loaded list is
+    exactly what `create_stog` leaves behind for the rectangles of the document (in document order), and `has_stog` is the
+    value it returned. -/
+theorem netlist_load_createStog (ε εA : α) {t : YVal α} {n : Netlist α}
+    (h : parseNetlist (stogC06 ε εA) εA t = .ok n) :
+    ∃ ms es, parseDoc t = .ok (ms, es) ∧
+      List.Forall₂ (fun (m m0 : NL.Mod α) => m.name = m0.name ∧
+        ((m0.rects = [] ∧ m.rects = [] ∧ hasStog m = false) ∨
+         (m0.rects ≠ [] ∧ ∃ b, createStog ε εA (m0.rects.map NRect.toRect) = some (b, m.rects.map NRect.toRect) ∧
+            hasStog m = b))) n.modules ms := by
+  obtain ⟨ms, es, hd, hfin, hmods, _⟩ := parseNetlist_modules h
+  refine ⟨ms, es, hd, ?_⟩
+  rw [hmods]
+  clear hmods hd h hfin
+  induction ms with
+  | nil => exact List.Forall₂.nil
+  | cons m0 rest ih =>
+    refine List.Forall₂.cons ⟨finalize_name _ m0, ?_⟩ ih
+    by_cases hr : m0.rects = []
+    · rw [finalize_rects_nil hr]
+      exact Or.inl ⟨hr, hr, by simp [hasStog, hr]⟩
+    · rw [finalize_rects_cons hr]
+      obtain ⟨flag, hflag⟩ := stogC06_toRect ε εA m0.rects hr
+      exact Or.inr ⟨hr, flag, hflag, hasStog_of_toRect (m := { m0 with center := _, rects := stogC06 ε εA m0.rects }) hflag⟩
+
+/-- **LOADING ONLY REORDERS**: module by module (same order, same names) the rectangles of a loaded netlist are, roles
+    apart, a permutation of the rectangles the document gives that module — nothing altered, dropped or duplicated. -/
+theorem netlist_load_only_reorders (ε εA : α) {t : YVal α} {n : Netlist α}
+    (h : parseNetlist (stogC06 ε εA) εA t = .ok n) :
+    ∃ ms es, parseDoc t = .ok (ms, es) ∧
+      List.Forall₂ (fun (m m0 : NL.Mod α) => m.name = m0.name ∧
+        (m.rects.map fun r => geom r.toRect).Perm (m0.rects.map fun r => geom r.toRect)) n.modules ms := by
+  obtain ⟨ms, es, hd, hF⟩ := netlist_load_createStog ε εA h
+  refine ⟨ms, es, hd, hF.imp ?_⟩
+  rintro m m0 ⟨hn, hcase⟩
+  refine ⟨hn, ?_⟩
+  rcases hcase with ⟨h0, h1, _⟩ | ⟨_, b, hb, _⟩
+  · rw [h0, h1]
+  · have := createStog_perm ε εA _ _ _ hb
+    rw [List.map_map, List.map_map] at this
+    exact this
+
+/-- **`has_stog` after loading is sound and complete**: a loaded module with rectangles has a STOG exactly when one of the
+    rectangles the document gives it can serve as trunk (`IsTrunk`; in geometric terms through `findLocation_iff`). -/
+theorem netlist_hasStog_iff (ε εA : α) {t : YVal α} {n : Netlist α}
+    (h : parseNetlist (stogC06 ε εA) εA t = .ok n) :
+    ∃ ms es, parseDoc t = .ok (ms, es) ∧
+      List.Forall₂ (fun (m m0 : NL.Mod α) => m.name = m0.name ∧
+        (m0.rects ≠ [] → (hasStog m = true ↔ ∃ i, IsTrunk ε εA (m0.rects.map NRect.toRect) i))) n.modules ms := by
+  obtain ⟨ms, es, hd, hF⟩ := netlist_load_createStog ε εA h
+  refine ⟨ms, es, hd, hF.imp ?_⟩
+  rintro m m0 ⟨hn, hcase⟩
+  refine ⟨hn, fun hne => ?_⟩
+  rcases hcase with ⟨h0, _, _⟩ | ⟨_, b, hb, hs⟩
+  · exact absurd h0 hne
+  · rw [hs]; exact createStog_true_iff ε εA _ b _ hb
+
+/-- the call site's last line: `assert all(not m.flip or m.has_stog …)` — every flippable module of a loaded netlist has a
+    STOG. -/
+theorem netlist_flip_has_stog (ε εA : α) {t : YVal α} {n : Netlist α}
+    (h : parseNetlist (stogC06 ε εA) εA t = .ok n) : ∀ m ∈ n.modules, m.flip = true → hasStog m = true := by
+  obtain ⟨ms, es, _, hf⟩ := parseNetlist_ok h
+  obtain ⟨_, _, _, _, hflip, _⟩ := finish_ok hf
+  exact hflip
+
+/-! non-vacuity: the document `H` (branch given first) loads with the trunk in front; `Module.create_stog()` on the two
+    rectangles in document order returns `True` -/
+
+def stogDoc : YVal ℚ :=
+  .map [(.str "Modules", .map [
+          (.str "H", .map [(.str "hard", .bool true), (.str "flip", .bool true),
+                           (.str "rectangles", .seq [.seq [.int 1, .int 4, .int 2, .int 2],
+                                                     .seq [.int 2, .int 2, .int 4, .int 2]])]),
+          (.str "A", .map [(.str "area", .int 3)])])]
+
+example : (match parseNetlist (stogC06 (1 / 1024 : ℚ) (1 / 32)) (1 / 32) stogDoc with
+    | .ok n => n.modules.map (fun m => (hasStog m, m.rects.map fun r => (r.w, r.loc))) ==
+        [(true, [(Num.i 4, Loc.trunk), (Num.i 2, Loc.north)]), (false, [])]
+    | .error _ => false) = true := by decide +kernel
+
+def branchFirst : NL.Mod ℚ :=
+  { name := "H", center := none, aspect := none, terminal := false, hard := true, fixed := false, flip := false,
+    areaRegions := [("_", 12)],
+    rects := [{ cx := .i 1, cy := .i 4, w := .i 2, h := .i 2, hard := true },
+              { cx := .i 2, cy := .i 2, w := .i 4, h := .i 2, hard := true }] }
+
+example : (match Mod.createStog (1 / 1024 : ℚ) (1 / 32) branchFirst with
+    | some (b, m') => b && hasStog m' && (m'.rects.map fun r => (r.w, r.loc)) == [(Num.i 4, Loc.trunk), (Num.i 2, Loc.north)]
+    | none => false) = true := by decide +kernel
+
+example : (Mod.createStog (1 / 1024 : ℚ) (1 / 32) { branchFirst with rects := [] }).isSome = false := by decide +kernel
+
+end netlist
+
 
 end FV.C06
